@@ -8,7 +8,8 @@ Model: `PwVerif.Pool` with `c.retry = false` (no user `enqueue_fn`: `NoRetry`). 
 it gives up in the ghost list `St.dropped` (`Drop.w` = the worker, `Drop.handed` = it was on that worker's pending
 list / it was just being offered to it). Quantifiers as for C07: any number of workers, any inputs, any
 `worker_extra_pending_inputs`, any workers already dead before the run, **every** schedule of adversary events.
-The same model runs against the real `Pool.run` with `retry=False` in `harness/c08.py`.
+The same model runs against the real `Pool.run` with `retry=False` in `harness/c08.py`. (An input *refused* by a user
+`enqueue_fn` is not given up: it waits on the retry list whatever the retry policy - `C08_noretry_refused_after_fix`.)
 -/
 namespace PwVerif.C08
 open PwVerif.Pool
@@ -154,12 +155,11 @@ example :
     let s := runEvents cNR pickFirst (start cNR pickFirst 2 [1, 2] [.die 1 false]) [.work 0, .poll [0]]
     outcome s = .returned [1] ∧ s.dropped = [⟨1, 2, false⟩] := by decide +kernel
 
-/-- **known finding**, as a kernel-evaluated witness: with retry off an input refused by the user `enqueue_fn`
-    is dropped silently although nobody died - it is missing from the normal return value and is not even
-    recorded as given up (`noFn` is what `C08_noretry_missing_accounted` needs) -/
-theorem C08_noretry_refused_witness :
+/-- the input that was dropped silently before the repair (retry off, the user `enqueue_fn` refuses it although nobody
+    died): it now stays on the retry list, the run ends with `PoolError` instead of returning `[]` -/
+theorem C08_noretry_refused_after_fix :
     let c : Cfg := { retry := false, extra := 1, refuse := fun w i => w == 0 && i == 1 }
     let s := runEvents c pickFirst (start c pickFirst 1 [1]) []
-    outcome s = .returned [] ∧ s.dropped = [] ∧ (getW s 0).alive = true := by decide +kernel
+    outcome s = .poolError [] ∧ s.retries = [1] ∧ s.dropped = [] := by decide +kernel
 
 end PwVerif.C08
